@@ -18,6 +18,7 @@ import (
 	"net/http"
 	"os"
 	"path/filepath"
+	"regexp"
 	"strings"
 	"time"
 
@@ -32,6 +33,8 @@ import (
 	scnhttp "github.com/yandex/pandora/components/providers/scenario/http"
 	"github.com/yandex/pandora/core"
 	coreconfig "github.com/yandex/pandora/core/config"
+
+	"verifharness/internal/vt"
 )
 
 func mustRead(rel string) string {
@@ -54,6 +57,14 @@ func (d *mfDoc) rep(old, new string, n int) {
 		machinery("class %s: payload does not contain %q", d.cls, old)
 	}
 	d.text = strings.Replace(d.text, old, new, n)
+}
+
+// step tokens of Malformed!AllReqTokens
+var mfStepText = map[string]string{
+	"R1": "auth_req(1)", "Rdef": "auth_req", "Rsl": "auth_req(1, 20)", "R0": "auth_req(0)", "Rneg": "auth_req(-1)",
+	"Rbig": "auth_req(50)", "Rbad": "auth_req(x)", "Rhuge": "auth_req(99999999999999999999)",
+	"S": "sleep(100)", "S0": "sleep(0)", "Sneg": "sleep(-1)", "Sempty": "sleep()", "Sbad": "sleep(abc)",
+	"Shuge": "sleep(99999999999999999999)",
 }
 
 const (
@@ -106,6 +117,109 @@ func mfRenderDesc(c mfCase) (name, text string, files map[string]string) {
 	}
 	cls := c.Cls
 	switch {
+	case cls == "reqlist":
+		// arg = step tokens; both scenarios get the same list
+		steps := []string{}
+		for _, t := range c.Arg {
+			tok, _ := t.(string)
+			txt, ok := mfStepText[tok]
+			if !ok {
+				machinery("unknown request-list token %v", t)
+			}
+			steps = append(steps, txt)
+		}
+		var re *regexp.Regexp
+		var list string
+		if hcl {
+			re = regexp.MustCompile(`requests\s*=\s*\[[^\]]*\]`)
+			q := []string{}
+			for _, st := range steps {
+				q = append(q, `"`+st+`"`)
+			}
+			list = "requests = [" + strings.Join(q, ", ") + "]"
+		} else {
+			re = regexp.MustCompile(`(?m)^    requests:\n(      - .*\n)+`)
+			if len(steps) == 0 {
+				list = "    requests: []\n"
+			} else {
+				list = "    requests:\n"
+				for _, st := range steps {
+					list += "      - '" + st + "'\n"
+				}
+			}
+		}
+		if len(re.FindAllString(d.text, -1)) != 2 {
+			machinery("reqlist: expected two request lists in the %s payload", c.Format)
+		}
+		d.text = re.ReplaceAllLiteralString(d.text, list)
+	case cls == "tfunc":
+		// arg = <<function, a, b, where>>
+		num := map[string]string{"minint": "-9223372036854775808", "m1": "-1", "z": "0", "p1": "1", "maxint": "9223372036854775807"}
+		fn, _ := c.Arg[0].(string)
+		a, _ := c.Arg[1].(string)
+		b, _ := c.Arg[2].(string)
+		where, _ := c.Arg[3].(string)
+		call := fn + "(" + num[a]
+		if b != "-" {
+			call += "," + num[b]
+		}
+		call += ")"
+		if num[a] == "" || (b != "-" && num[b] == "") {
+			machinery("tfunc: unknown number token in %v", c.Arg)
+		}
+		switch where {
+		case "var":
+			d.rep(varOld, varNew(call), 1)
+		case "map":
+			d.rep(mapOld, mapNew(call), 1)
+		default:
+			machinery("tfunc: unknown position %q", where)
+		}
+	case cls == "index":
+		// arg = <<rows, index token, where>>
+		rows := vt.Int(c.Arg[0])
+		tok, _ := c.Arg[1].(string)
+		where, _ := c.Arg[2].(string)
+		csv := "user_id,login,pass\n"
+		for i := 1; i <= rows; i++ {
+			csv += fmt.Sprintf("%d,%d,%d\n", i, i, i)
+		}
+		files["testdata/users.csv"] = csv
+		var idx string
+		switch tok {
+		case "m2l1":
+			idx = fmt.Sprint(-(2*rows + 1))
+		case "ml1":
+			idx = fmt.Sprint(-(rows + 1))
+		case "ml":
+			idx = fmt.Sprint(-rows)
+		case "m1":
+			idx = "-1"
+		case "z":
+			idx = "0"
+		case "l1":
+			idx = fmt.Sprint(rows - 1)
+		case "l":
+			idx = fmt.Sprint(rows)
+		case "2l1":
+			idx = fmt.Sprint(2*rows + 1)
+		case "huge":
+			idx = "99999999999999999999"
+		case "minint":
+			idx = "-9223372036854775808"
+		case "maxint":
+			idx = "9223372036854775807"
+		default:
+			machinery("unknown index token %q", tok)
+		}
+		switch where {
+		case "map":
+			d.rep(mapOld, mapNew("source.users["+idx+"]"+sfx), 1)
+		case "func":
+			d.rep(mapOld, mapNew("randString(source.users["+idx+"].user_id)"), 1)
+		default:
+			machinery("unknown index position %q", where)
+		}
 	case cls == "d_none":
 	case cls == "leading_sleep":
 		d.rep(pick(`"auth_req(1)",`, `- auth_req(1)`), pick("\"sleep(50)\",\n    \"auth_req(1)\",", "- sleep(50)\n      - auth_req(1)"), -1)
